@@ -671,6 +671,8 @@ func Input(l *InputSharedVars, g *GlobalVarsMain, hPath *HFilePath, driConfig *C
 								_, valEinte := g.Datum(g.TILDAT[NRTILindex])
 								g.EINTE[NRTIL] = valEinte
 								if g.EINTE[NRTIL] < g.BEGINN {
+									// do not leave the dropped event behind the last kept one
+									g.EINTE[NRTIL] = 0
 									NRTIL--
 								}
 								SCHLAG, tilageTokens, valid = NextLineInut(0, scannertilage, strings.Fields)
